@@ -261,7 +261,7 @@ func eachInstrDeep(fn *ssa.Function, f func(ins ssa.Instruction), seen map[*ssa.
 			if !haveReference || depth > 3 {
 				continue
 			}
-			if c, ok := ins.(*ssa.Call); ok {
+			if c, ok := ins.(ssa.CallInstruction); ok { // call, go, defer
 				if g := staticCallee(c.Common()); g != nil && isNewHelper(g) && !seen[g] {
 					// walk the helper here, with its parameters standing for this call's arguments
 					sub := map[*ssa.Parameter]string{}
@@ -795,6 +795,23 @@ func describeShallow(v ssa.Value, d func(ssa.Value) string) string {
 }
 
 func describeCall(c *ssa.CallCommon, d func(ssa.Value) string) string {
+	// a helper that is new with respect to the reference tree and just computes a value: print the value
+	if g := staticCallee(c); g != nil && isNewHelper(g) && g.Signature.Results().Len() == 1 && len(describeDepthGuard) < 4 {
+		if rv := returnValues(g, 0); len(rv) == 1 {
+			sub := map[*ssa.Parameter]string{}
+			for i, a := range c.Args {
+				if i < len(g.Params) {
+					sub[g.Params[i]] = d(a)
+				}
+			}
+			paramSubstStack = append(paramSubstStack, sub)
+			describeDepthGuard = append(describeDepthGuard, g)
+			t := describe(rv[0])
+			describeDepthGuard = describeDepthGuard[:len(describeDepthGuard)-1]
+			paramSubstStack = paramSubstStack[:len(paramSubstStack)-1]
+			return t
+		}
+	}
 	var args []string
 	for _, a := range callArgs(c) {
 		args = append(args, d(a))
@@ -1205,6 +1222,8 @@ func holdsAmong(conds []string, cond string) bool {
 	return false
 }
 
+var describeDepthGuard []*ssa.Function
+
 var (
 	callSiteStack   []ssa.Instruction
 	paramValueStack []map[*ssa.Parameter]ssa.Value
@@ -1367,4 +1386,17 @@ func wholeStore(a *ssa.Alloc) ssa.Value {
 		return val
 	}
 	return nil
+}
+
+// isClosureOf: the described value is the function literal f, or f (a method) taken as a method value.
+func isClosureOf(desc string, f *ssa.Function) bool {
+	return desc == "closure:"+fname(f) || desc == "closure:"+fname(f)+"$bound" || desc == "func:"+fname(f)
+}
+
+// refFieldName: the field's name in the reference vocabulary.
+func refFieldName(v *types.Var) string {
+	if old, ok := curRenames.fieldAlias[v]; ok {
+		return old
+	}
+	return v.Name()
 }
